@@ -229,6 +229,15 @@ def _apply_transform(
     return Affine2D.identity()
 
 
+def _is_fill(ot_paint: otTables.Paint) -> bool:
+    while is_transform(ot_paint.Format):
+        ot_paint = ot_paint.Paint
+    return (
+        ot_paint.Format == PaintSolid.format
+        or ot_paint.Format in _GRADIENT_PAINT_FORMATS
+    )
+
+
 def _colr_v1_paint_to_svg(
     ttfont: ttLib.TTFont,
     glyph_set: Mapping[str, Any],
@@ -257,7 +266,7 @@ def _colr_v1_paint_to_svg(
         _apply_gradient_ot_paint(
             svg_defs, parent_el, ttfont, font_to_vbox, ot_paint, reuse_cache, transform
         )
-    elif ot_paint.Format == PaintGlyph.format:
+    elif ot_paint.Format == PaintGlyph.format and _is_fill(ot_paint.Paint):
         layer_glyph = ot_paint.Glyph
         svg_path = etree.SubElement(parent_el, "path")
 
@@ -266,6 +275,20 @@ def _colr_v1_paint_to_svg(
 
         descend(svg_path, ot_paint.Paint)
         _draw_svg_path(svg_path, glyph_set, layer_glyph, font_to_vbox)
+
+    elif ot_paint.Format == PaintGlyph.format:
+        # The glyph clips a paint graph rather than a fill; a <path> can't hold that
+        svg_g = etree.SubElement(parent_el, "g")
+        transform = _apply_transform(transform, font_to_vbox, svg_g)
+
+        clip_path = etree.SubElement(svg_defs, "clipPath")
+        clip_path.attrib["id"] = f"c{len(svg_defs)}"
+        _draw_svg_path(
+            etree.SubElement(clip_path, "path"), glyph_set, ot_paint.Glyph, font_to_vbox
+        )
+        svg_g.attrib["clip-path"] = f"url(#{clip_path.attrib['id']})"
+
+        descend(svg_g, ot_paint.Paint)
 
     elif is_transform(ot_paint.Format):
         paint = Paint.from_ot(ot_paint)
